@@ -186,6 +186,14 @@ pub proof fn lemma_store_zeros_nf(t: St, mb: Register, k: int)
 
 // ---- objects of any size: linked blocks --------------------------------------------------------------
 
+/// effect of `load_immediate(tmp, 0)`: a register is zeroed directly, a spill slot through the scratch register X2
+pub open spec fn load_zero_effect(t: St, tmp: Temporary) -> St {
+    match tmp {
+        Temporary::Register(r) => wr(t, r, 0),
+        Temporary::Spill(k) => { let t1 = wr(t, Register::X(2), 0); St { mem: t1.mem.insert(slot_addr(t1, k.0 as int), 0), ..t1 } },
+    }
+}
+
 /// effect of `store_fields` on a flag-free state `t`: the bindings `bs` (environment positions rem ..) are
 /// stored right to left into a chain of blocks - at most 3 values in the last block, 2 values and the link to
 /// the previously filled block in every other one; every filled block is `HEAP` (X0), and after filling it a
@@ -196,7 +204,7 @@ pub open spec fn store_fields_effect(t: St, bs: Seq<ContextBinding>, rem: int, l
 {
     let n = bs.len() as int;
     if n == 0 {
-        if last { nf(set(t, tfp(2 * rem), 0)) } else { t }
+        if last { nf(load_zero_effect(t, tfp(2 * rem))) } else { t }
     } else {
         let t1 = if !last { nf(store_field_effect(t, tfp(2 * (rem + n)), Register::X(0), 48int)) } else { t };
         let cap = if last { 3int } else { 2int };
